@@ -56,6 +56,9 @@ func (ex *Exec) harnessIntrinsic(fr *Frame, name string, args []Value, g *T) (Va
 		base := strArg(args[0])
 		vn := ex.freshName(base)
 		v := RealVar(vn)
+		if isC(lo) && isC(hi) {
+			v.rlo, v.rhi = ratToFloat(lo.r), ratToFloat(hi.r)
+		}
 		if !isC(lo) || !isC(hi) {
 			unsup("vhReal bounds must be constants")
 		}
